@@ -18,6 +18,7 @@
 
 #include <netinet/in.h>
 
+#include <fcntl.h>
 #include <unistd.h>
 
 #include "drv_common.h"
@@ -403,6 +404,9 @@ main(void)
 		}
 		if ((pid = fork()) == 0) {
 			close(pfd[0]);
+			/* exit() would seek a redirected stdin back over the unread lines */
+			close(0);
+			(void)open("/dev/null", O_RDONLY);
 			outfd = pfd[1];
 			run_case(tok, n);
 			flush_out();
